@@ -490,7 +490,7 @@ class ExprRun:
                 else:
                     ss = core.san_summary(err)
                     if ss:
-                        key_o = ss[0] + ":" + ">".join(ss[1][:2])
+                        key_o = ss[0] + ":" + ">".join(ss[1][:4])
                     else:
                         m = re.search(r"#SIGNAL (\d+)", err)
                         key_o = "crash:rc%s" % rc
